@@ -703,8 +703,40 @@ fn cli_cases(out: &mut Out, rng: &mut Rng, cli: &Path, n: usize, work: &Path, us
 
 /// a valid schema (gen.rs) decorated with what the server output must strip
 fn server_source(rng: &mut Rng, plugin: bool, mode: Mode) -> String {
-    let s = gen_schema(rng, &SchemaCfg { descriptions: false, custom_directives: true });
+    let s = gen_schema(rng, &SchemaCfg { descriptions: mode == Mode::Adversarial, custom_directives: true });
     let mut src = s.render();
+    // descriptions with template- and string-relevant characters on types (printed at indent 0: multi-line allowed
+    // in the plain stream) and on fields / enum values / input fields (indent 2)
+    {
+        let mut o = String::new();
+        let mut in_schema_block = false;
+        let mut in_block_string = false;
+        let mut prev_desc = false;
+        for line in src.lines() {
+            // descriptions the generator already wrote: leave them and what they describe alone
+            let quotes3 = line.matches("\"\"\"").count();
+            if in_block_string || quotes3 > 0 || line.trim_start().starts_with('"') {
+                if quotes3 % 2 == 1 { in_block_string = !in_block_string; }
+                prev_desc = true;
+                o.push_str(line); o.push('\n');
+                continue;
+            }
+            if prev_desc { prev_desc = false; o.push_str(line); o.push('\n'); continue; }
+            if line.starts_with("schema") { in_schema_block = true; }
+            let top = ["type ", "interface ", "union ", "enum ", "input ", "scalar "].iter().any(|k| line.starts_with(k));
+            let member = line.starts_with("  ") && !line.starts_with("   ") && !line.starts_with("  \"") && !in_schema_block;
+            if (top || member) && rng.chance(1, 4) {
+                let mut syn = Syn { rng, mode, top: true };
+                let d = syn.string(top);
+                // a block literal keeps its text: do not indent it
+                if member && !d.contains('\n') { o.push_str("  "); }
+                o.push_str(&d); o.push('\n');
+            }
+            if line.starts_with('}') { in_schema_block = false; }
+            o.push_str(line); o.push('\n');
+        }
+        src = o;
+    }
     // nitrogql_ts_type on scalars; @model(type: …) on object types, or @model on fields of objects without it
     // (what the plugin's check accepts); in the adversarial stream also on interface / input fields (rejected by the checks)
     let mut o = String::new();
